@@ -449,14 +449,6 @@ ares_status_t ares_sconfig_append(const ares_channel_t   *channel,
     return ARES_ENOMEM; /* LCOV_EXCL_LINE: OutOfMemory */
   }
 
-  if (*sconfig == NULL) {
-    *sconfig = ares_llist_create(ares_free);
-    if (*sconfig == NULL) {
-      status = ARES_ENOMEM; /* LCOV_EXCL_LINE: OutOfMemory */
-      goto fail;            /* LCOV_EXCL_LINE: OutOfMemory */
-    }
-  }
-
   memcpy(&s->addr, addr, sizeof(s->addr));
   s->udp_port = udp_port;
   s->tcp_port = tcp_port;
@@ -474,6 +466,17 @@ ares_status_t ares_sconfig_append(const ares_channel_t   *channel,
     if (status != ARES_SUCCESS) {
       status = ARES_SUCCESS;
       goto fail;
+    }
+  }
+
+  /* Create the list only once there is an entry to put into it.  A list that
+   * exists but is empty means "replace the servers by nothing" to
+   * ares_sysconfig_apply(), which a skipped entry must not cause. */
+  if (*sconfig == NULL) {
+    *sconfig = ares_llist_create(ares_free);
+    if (*sconfig == NULL) {
+      status = ARES_ENOMEM; /* LCOV_EXCL_LINE: OutOfMemory */
+      goto fail;            /* LCOV_EXCL_LINE: OutOfMemory */
     }
   }
 
